@@ -129,7 +129,7 @@ class C05(Check):
     def run_shard(self, tier, seed, shard, nshards):
         from vlib import hyp
         res = ShardResult()
-        nex = 6000 if tier == "thorough" else 600
+        nex = 2500 if tier == "thorough" else 600
         cnt = [0]
 
         def one(e):
